@@ -562,6 +562,15 @@ class LocalVarsVisitor(ast.NodeVisitor):
         self.generic_visit(node)
 
 
+def _is_call_on_result(fun_node: ast.AST) -> bool:
+    """
+    f(..).g, f(..).g.h: the called expression is an attribute of the value that another call returns.
+    """
+    while isinstance(fun_node, ast.Attribute):
+        fun_node = fun_node.value
+    return isinstance(fun_node, ast.Call)
+
+
 def _function_name(node: ast.AST) -> List[str]:
     if isinstance(node, ast.Name):
         return [node.id]
@@ -854,6 +863,15 @@ class InspectFunction(object):
                 f"Expected FunctionType or class for {caller_fun_path}, got {type(caller_fun)}",
                 DDSErrorCode.UNSUPPORTED_CALLABLE_TYPE,
             )
+
+        if _is_call_on_result(node.func) and caller_fun_path in (
+            CanonicalPathUtils.from_list(["dds", "keep"]),
+            CanonicalPathUtils.from_list(["dds", "load"]),
+            CanonicalPathUtils.from_list(["dds", "eval"]),
+        ):
+            # A method called on the value that a dds call returns (dds.load(p).upper()): the dds call is
+            # a call node of its own, this node is not a call to dds.
+            return None
 
         # Check if this is a call we should do something about.
 
